@@ -69,7 +69,10 @@ func init() {
 		},
 		MaxBlocks: 40, MaxAdds: 64, PReorg: 6, PSnapCrash: 0, NetFaults: true})
 	reg(&Profile{Name: "c02", PrefixSharePct: 6, PForged: 15, Property: "C02", Oracles: []string{"roots", "prove"},
-		Nodes:     func(r *Rng) []NodeCfg { return allForests(r) },
+		Nodes: func(r *Rng) []NodeCfg {
+			// ... and a forest that starts from bare roots at some block (partial, or full=true)
+			return append(allForests(r), NodeCfg{Kind: "mappartial", TotalRows: -1, FromRoots: 1 + r.Intn(4), FullRoots: r.Pct(30)})
+		},
 		MaxBlocks: 30, MaxAdds: 48, PReorg: 8, PSnapCrash: 4, PCacheOps: 6, NetFaults: true})
 	reg(&Profile{Name: "c05", NodeHashPct: 6, PForged: 15, Property: "C05", Oracles: []string{"roots"},
 		Nodes: func(r *Rng) []NodeCfg {
@@ -79,7 +82,7 @@ func init() {
 				{Kind: "stump", Relay: "reenc", NoUndo: true},
 				{Kind: "mappartial", TotalRows: -1, Relay: "reenc", NoUndo: true, DetMaps: r.Bool()},
 				{Kind: "mappartial", TotalRows: []int{0, 0, 1 + r.Intn(8)}[r.Intn(3)], Relay: "reenc", NoUndo: true},
-				{Kind: "mappartial", TotalRows: -1, Relay: "reenc", NoUndo: true, FromRoots: 1 + r.Intn(4)}}
+				{Kind: "mappartial", TotalRows: -1, Relay: "reenc", NoUndo: true, FromRoots: 1 + r.Intn(4), FullRoots: r.Pct(40)}}
 		},
 		MaxBlocks: 30, MaxAdds: 48, PReorg: 3, PCacheOps: 10, NetFaults: true})
 	reg(&Profile{Name: "c06", PForged: 10, Property: "C06", Oracles: []string{"roots", "lookup", "prove", "provable-set", "partial"},
@@ -366,7 +369,7 @@ func Generate(p *Profile, seed uint64) *Scenario {
 				sc.Steps = append(sc.Steps, Step{Op: "ingest", Node: node, Picks: picks, Arg: g.Intn(3)})
 			}
 			continue
-		case p.Name == "c17" && len(lights) > 0 && g.Pct(8):
+		case (p.Name == "c17" && g.Pct(8) || (p.Name == "c07" || p.Name == "c08") && g.Pct(5)) && len(lights) > 0:
 			sc.Steps = append(sc.Steps, Step{Op: "reimport", Node: lights[g.Intn(len(lights))], Seed: g.Next()})
 			continue
 		case len(p.QueryModes) > 0 && g.Pct(pQuery) && st.NumLive() > 0:
